@@ -11,7 +11,30 @@ from symex import strip, show, is_call, field_path, mentions, decision_variant, 
 from xpand import run as xrun
 import facts as factsmod
 
-PNAME = re.compile(r'^(?:_ref__)?p(\d+)$')
+_PNAME = re.compile(r'^(?:_ref__)?p(\d+)$')
+_HYGIENE = {n: i for i, n in enumerate(['output', 'cont', 'inputs', 'eval', 'value'])}     # (xpand/gen.py HYGIENE_NAMES: parameters named like the expansion's own bindings)
+
+
+class _PName:
+    """name of a captured parameter -> its position: `pK` / `_ref__pK`, or one of the hygiene names the generator uses instead"""
+    class _M:
+        def __init__(self, k):
+            self.k = k
+
+        def group(self, _):
+            return str(self.k)
+
+    def match(self, last):
+        m = _PNAME.match(last)
+        if m:
+            return m
+        base = last[6:] if last.startswith('_ref__') else last
+        if base in _HYGIENE:
+            return self._M(_HYGIENE[base])
+        return None
+
+
+PNAME = _PName()
 
 
 class Model:
